@@ -109,10 +109,6 @@ package p2p
 //@   trusted
 //@   pure
 //@   ensures lo != nil && hi != nil
-//@ func genNonces
-//@   trusted
-//@   assigns nothing
-//@   ensures recvNonce != nil && sendNonce != nil && recvNonce != sendNonce
 //@ func genChallenge
 //@   trusted
 //@   assigns nothing
@@ -206,3 +202,12 @@ package p2p
 //@   invariant-assumed byteArr24(*nonce)
 //@   assigns  *nonce
 //@   ensures  [nonce-advances-by-exactly-two] nonceVal(*nonce) == (old(nonceVal(*nonce)) + 2) % 6277101735386680763835789423207666416102355444464034512896
+
+// the two directions of a connection use different nonce sequences: the nonces agree except in the lowest bit of the last byte
+//@ func genNonces
+//@   props C20
+//@   requires loPubKey != nil && hiPubKey != nil
+//@   nosafety
+//@   assigns  nothing
+//@   ensures [directions-differ-in-the-lowest-bit-only] recvNonce != nil && sendNonce != nil && recvNonce != sendNonce && (*recvNonce)[23] != (*sendNonce)[23] \
+//@              && forall(j, 0, 23, (*recvNonce)[j] == (*sendNonce)[j])
